@@ -49,6 +49,11 @@ def main():
             shutil.copy(t, dest)
             names = re.findall(r"^func (Test\w+)\(", open(t).read(), re.M)
             demo_cmd = f"timeout 200 go test -vet=off -count=1 -timeout 180s -run '^({'|'.join(names)})$' ./{pdir}/"
+        elif os.path.exists(os.path.join(src, "demo", "main.go")) and any(os.path.isdir(os.path.join(src, "demo", e)) for e in os.listdir(os.path.join(src, "demo"))):
+            # a demonstration with helper packages of its own: keep the author's directory layout (import paths)
+            base = os.path.basename(src.rstrip("/"))
+            shutil.copytree(src, os.path.join(wt, base))
+            demo_cmd = f"timeout 200 go run ./{base}/demo"
         elif os.path.exists(os.path.join(src, "demo", "main.go")):
             os.makedirs(os.path.join(wt, "zz_seeded_demo"), exist_ok=True)
             for f in glob.glob(os.path.join(src, "demo", "*.go")):
@@ -78,8 +83,9 @@ def main():
             sigs = re.findall(r"signature: (.*)", o)
             rcm = re.search(r"== %s rc=(\d+)" % chk, o)
             caught[chk] = {"rc": int(rcm.group(1)) if rcm else None, "signatures": sigs[:4]}
-    st = subprocess.run("git -C /repo status --short", shell=True, capture_output=True, text=True).stdout
-    assert st.strip() == "", "repo dirty after trymut: " + st
+    if not os.environ.get('NOCHECKS'):
+        st = subprocess.run("git -C /repo status --short", shell=True, capture_output=True, text=True).stdout
+        assert st.strip() == "", "repo dirty after trymut: " + st
     res["checks"] = caught
     # store
     if ok:
